@@ -360,6 +360,27 @@ def main():
         fh.write("\n".join(lines))
         fh.write("\n    ]\n}\n\n")
         fh.write(decl_src)
+    # feature-fingerprint corpus (C15): definitions + MetaType thunks only, nothing from the harness library
+    with open(outdir + "/fp_corpus.rs", "w") as fh:
+        fh.write("// @generated by gen/corpus.py seed=%d tier=%s\n" % (seed, tier))
+        fh.write("#[allow(unused_imports, dead_code, non_camel_case_types, non_snake_case)]\npub mod g {\n    use super::prelude::*;\n")
+        fh.write(def_src)
+        fh.write("}\n\n")
+        base, bv = [], []
+        seen = set()
+        for t in types:
+            txt = t.rust()
+            if txt in seen:
+                continue
+            seen.add(txt)
+            (bv if (t.has_bitvec() or txt in ("Lsb0", "Msb0")) else base).append(txt)
+        for (txt, _sh, _dp, _enc, _tags) in def_entries:
+            base.append(txt)
+        for name, lst, cfg in (("metas", base, ""), ("metas_bitvec", bv, '#[cfg(feature = "bit-vec")]\n')):
+            fh.write("%spub fn %s() -> Vec<(&'static str, scale_info::MetaType)> {\n    use prelude::*;\n    vec![\n" % (cfg, name))
+            for txt in lst:
+                fh.write("        (%s, scale_info::meta_type::<%s>()),\n" % (rust_str(txt), txt))
+            fh.write("    ]\n}\n\n")
     with open(outdir + "/corpus.json", "w") as fh:
         json.dump({"seed": seed, "tier": tier, "type_expressions": len(lines), "core": len(core), "defs": stats}, fh)
 
